@@ -16,6 +16,7 @@ import contextlib
 import itertools
 import logging
 import os
+import re
 import signal
 import threading
 
@@ -81,7 +82,7 @@ def run(ck):
     from spsdk.sbfile.sb2 import commands as sb2cmd
     from spsdk.utils import misc
 
-    ck.lean_obligations(generated=["PyFuns", "PyFuns2", "EnumTables"])
+    ck.lean_obligations(generated=["PyFuns", "PyFuns2", "EnumTables", "PyFuns3", "Misc3Tables"])
     drv = ck.driver()
     ck.assume("Python int/bytes/str built-ins behave as documented (int(str, base), to_bytes, slicing)",
               "negative integers are outside the modelled domain of get_bytes_cnt_of_int/value_to_bytes/reverse_bits "
@@ -349,6 +350,7 @@ def run(ck):
     corr(s, reqs)
 
     run_phase2(ck, drv, corr, misc, sbmisc, values, sw32)
+    run_phase3(ck, drv, corr, misc, sbmisc)
 
 
 # ====================================================================================================== phase 2
@@ -650,6 +652,341 @@ def run_phase2(ck, drv, corr, misc, sbmisc, values, sw32):
             reqs.append(((name, "contains_label", l), f"enum {name} contains_label {_hx(l)}", canon(r4)))
         r = pyres(cls.contains, 1.5)
         s.expect(r[0] == "E:spsdk", (name, "contains", 1.5), "contains(non int/str) is not refused with an SPSDK error", r)
+    corr(s, reqs)
+
+
+# ====================================================================================================== phase 3
+BCD_GRAMMAR = re.compile(r"[0-9]{1,4}\.[0-9]{1,4}\.[0-9]{1,4}\Z")          # documented: #.#.#, # = 1-4 decimal digits
+BCD_LENIENT = re.compile(r"[ \t\n\r\x0b\x0c]*[+-]?(0[xX]_?)?[0-9a-fA-F](_?[0-9a-fA-F])*[ \t\n\r\x0b\x0c]*\Z")
+F_BCD = "C20-bcd-num-from-str-unvalidated"
+F_SIZE = "C20-size-fmt-last-unit"
+F_NEG = "C20-negative-int-hangs"
+
+
+def _bcd_expect(text):
+    """From the input alone: ('grammar', (a,b,c)) | ('lenient', (a,b,c)) | ('reject',) | ('reject-valueerror',)."""
+    if BCD_GRAMMAR.match(text):
+        return ("grammar", tuple(int(p, 16) for p in text.split(".")))
+    parts = text.split(".")
+    if len(parts) != 3:
+        return ("reject",)
+    vals = []
+    for p_ in parts:
+        if len(p_) > 4:
+            return ("reject",)
+        if not BCD_LENIENT.match(p_):
+            return ("reject-valueerror",)
+        try:
+            v = int(p_, 16)
+        except ValueError:
+            return ("reject-valueerror",)
+        if v < 0 or v > 0x9999 or not f"{v:04X}".isdigit():
+            return ("reject",)
+        vals.append(v)
+    return ("lenient", tuple(vals))
+
+
+def run_phase3(ck, drv, corr, misc, sbmisc):
+    from spsdk.image.ahab.ahab_data import FlagsSrkSet
+
+    rng = ck.rng
+    ck.assume("size_fmt is modelled in exact arithmetic: equal to the float implementation for use_kibibyte=True and |num| < 2^53 (divisions by "
+              "1024.0 are exact, '%.1f' is a correctly rounded conversion); for base 1000 only inputs away from a rounding tie are compared",
+              "load_hex_string file branch: the model covers ASCII file content; a byte >= 0x80 is treated as 'not text' (exact for undecodable "
+              "content, valid non-ASCII UTF-8 is outside the model); the file is the one find_file() returns",
+              "BcdVersion3 / format_value / SpsdkSoftEnum strings are ASCII")
+
+    s = ck.stream("helpers3", "reverse_bits on x >= 2^n / negative x, n in 0..9 x x in -2..70 + boundaries; format_value over values x sizes 0..40,64 x "
+                  "delimiters x prefix; value_to_bytes on bytes/str/int sources x byte_cnt incl. 0/negative; extend_block with integer paddings; "
+                  "find_first; SpsdkSoftEnum (FlagsSrkSet) tags -20..300; size_fmt on boundaries of every unit (kibi: all < 2^53); "
+                  "SecBootBlckSize.align_block_fill_zeros len 0..70; Endianness; change_endianness widths 0..40; non-trivial = distinct input")
+    reqs = []
+    # ---- reverse_bits on the whole integer domain
+    for n in list(range(-1, 10)) + [16, 32]:
+        xs = sorted(set(list(range(-2, 71)) + [2 ** n_ + d for n_ in (8, 16, 32, 33) for d in (-1, 0, 1)] + [rng.getrandbits(40) for _ in range(5)]))
+        for x in xs:
+            r = pyres(misc.reverse_bits, x, n)
+            s.note(("reverse_bits", x, n), cls="in-domain" if 0 <= x < 2 ** max(n, 0) else ("wide" if x >= 0 else "negative"))
+            reqs.append((("reverse_bits", x, n), f"reverse_bits_i {x} {n}", canon(r)))
+            if x >= 0 and n >= 0:
+                want = int(bin(x)[2:].zfill(n)[::-1], 2)   # the bits of x on max(n, bit_length) positions, mirrored
+                s.expect(r == ("ok", want), ("reverse_bits", x, n), "reverse_bits is not the mirror image of x on max(bits_cnt, bit_length(x)) bits", r, want)
+            else:
+                s.expect(r[0] != "ok", ("reverse_bits", x, n), "reverse_bits accepts a negative value / width", r)
+    # ---- format_value
+    fvals = sorted(set([0, 1, 5, 9, 10, 15, 16, 255, 256, 0x1234, 0x12345, 0xFFFF, 0x10000, 2 ** 32 - 1, 2 ** 32, 2 ** 64 - 1, 2 ** 70] +
+                       [rng.getrandbits(k) for k in (3, 7, 12, 20, 31, 33, 65) for _ in range(2)]))
+    fvals = fvals + [-v for v in fvals[1:8]]
+    for v in fvals:
+        for size in list(range(0, 41)) + [64, -1, -8]:
+            for delim, pfx in (("_", True), ("_", False), ("", True), (" ", True), ("-:", True), ("__", False)):
+                if delim not in ("_",) and size % 5:
+                    continue
+                r = pyres(misc.format_value, v, size, delim, pfx)
+                s.note(("format_value", v, size, delim, pfx))
+                reqs.append((("format_value", v, size, delim, pfx), f"format_value {v} {size} {_hx(delim)} {int(pfx)}",
+                             ("ok:" + _hx(r[1])) if r[0] == "ok" else r[0]))
+                if size < 0:
+                    s.expect(r[0] != "ok", ("format_value", v, size), "format_value accepts a negative size", r)
+                    continue
+                binm = size % 8 != 0
+                digits = format(abs(v), "b" if binm else "x").zfill(size if binm else size // 8 * 2)
+                head = ("-" if v < 0 else "") + (("0b" if binm else "0x") if pfx else "")
+                ok = r[0] == "ok" and r[1].startswith(head)
+                body = r[1][len(head):] if ok else ""
+                if delim and ok:
+                    groups = body.split(delim[::-1])
+                    ok = "".join(groups) == digits and all(len(g) == 4 for g in groups[1:]) and 1 <= len(groups[0]) <= 4
+                elif ok:
+                    ok = body == digits
+                s.expect(ok, ("format_value", v, size, delim, pfx), "format_value is not sign + prefix + zero-padded digits grouped by four from the right", r, head + digits)
+                if ok and delim == "_" and pfx and v >= 0:
+                    back = pyres(misc.value_to_int, r[1])
+                    s.expect(back == ("ok", v), ("format_value", v, size), "value_to_int(format_value(v)) is not v", back, v)
+    # ---- value_to_bytes on every source type
+    srcs = [("bytes", b""), ("bytes", b"\x01\x02\x03"), ("bytes", bytearray(b"\xff\x00")), ("str", "0x0"), ("str", "0x010203"), ("str", " 1_000 "),
+            ("str", "0b101"), ("str", "zz"), ("str", ""), ("str", "12ul"), ("str", "65536"), ("int", 0), ("int", 1), ("int", 255), ("int", 256),
+            ("int", 65536), ("int", 2 ** 32), ("int", True)]
+    for kind, val in srcs:
+        for a2n in (True, False):
+            for bc in (None, 0, 1, 2, 3, 4, 8, -1):
+                for endian in (misc.Endianness.BIG, misc.Endianness.LITTLE):
+                    r = pyres(misc.value_to_bytes, val, a2n, bc, endian)
+                    s.note(("value_to_bytes_any", kind, repr(val), a2n, bc, endian.value))
+                    payload = hexs(bytes(val)) if kind == "bytes" else (_hx(val) if kind == "str" else str(int(val)))
+                    reqs.append((("value_to_bytes_any", kind, repr(val), a2n, bc, endian.value),
+                                 f"v2b_any {kind} {payload} {int(a2n)} {'none' if bc is None else bc} {int(endian == misc.Endianness.LITTLE)}", canon(r)))
+                    if kind == "bytes":
+                        s.expect(r == ("ok", bytes(val)), ("value_to_bytes_any", kind, repr(val)), "value_to_bytes(bytes) is not the identity", r)
+                    elif kind == "str":
+                        num = pyres(misc.value_to_int, val)
+                        via = pyres(misc.value_to_bytes, num[1], a2n, bc, endian) if num[0] == "ok" else ("E:spsdk",)
+                        s.expect(r == via, ("value_to_bytes_any", kind, val, a2n, bc), "value_to_bytes(str) is not value_to_bytes(value_to_int(str))", r, via)
+                    if r[0] == "ok" and kind != "bytes" and bc:
+                        s.expect(len(r[1]) == bc, ("value_to_bytes_any", kind, repr(val), bc), "value_to_bytes ignores byte_cnt", r)
+    # ---- negative integers: must come back (finding: they do not)
+    for v in (-1, -256):
+        r = bounded(misc.get_bytes_cnt_of_int, v)
+        if r is None:
+            break
+        s.note(("bytes_cnt_negative", v), cls="negative")
+        s.expect(r != ("timeout",) and r[0] == "E:spsdk", ("bytes_cnt_negative", v), "get_bytes_cnt_of_int does not refuse a negative value "
+                 "with an SPSDK error (it does not return at all: `value >>= 8` never reaches 0)", r, "E:spsdk", finding=F_NEG if v < 0 else None)
+    # ---- extend_block with integer paddings
+    for L in (0, 1, 5):
+        b = bytes(range(1, L + 1))
+        for ln in (L - 1, L, L + 1, L + 4):
+            for pad in (-1, 0, 1, 255, 256, 300):
+                r = pyres(misc.extend_block, b, ln, pad)
+                s.note(("extend_block_i", b, ln, pad))
+                reqs.append((("extend_block_i", b, ln, pad), f"extend_block_i {hexs(b)} {ln} {pad}", canon(r)))
+                if ln < L:
+                    s.expect(r[0] == "E:spsdk", ("extend_block_i", b, ln, pad), "extend_block accepts a shorter length", r)
+                elif ln == L:
+                    s.expect(r == ("ok", b), ("extend_block_i", b, ln, pad), "extend_block changes a block that already has the length", r)
+                elif 0 <= pad <= 255:
+                    s.expect(r == ("ok", b + bytes([pad]) * (ln - L)), ("extend_block_i", b, ln, pad), "extend_block does not append exactly the padding", r)
+                else:
+                    s.expect(r[0] != "ok", ("extend_block_i", b, ln, pad), "extend_block accepts a padding value outside a byte", r)
+    # ---- find_first
+    for L in range(0, 9):
+        data = bytes(rng.getrandbits(4) for _ in range(L))
+        for m, rem in ((2, 0), (2, 1), (3, 2), (5, 4), (16, 15), (1, 0)):
+            r = pyres(misc.find_first, list(data), lambda x, m=m, rem=rem: x % m == rem)
+            s.note(("find_first", data, m, rem))
+            hits = [x for x in data if x % m == rem]
+            s.expect(r == ("ok", hits[0] if hits else None), ("find_first", data, m, rem), "find_first is not the first matching element / None", r)
+            reqs.append((("find_first", data, m, rem), f"find_first {hexs(data)} {m} {rem}", "ok:none" if r == ("ok", None) else canon(r)))
+
+    # ---- SpsdkSoftEnum
+    def row(m):
+        return f"{m.tag}:{_hx(m.label)}:" + ("none" if m.description is None else _hx(m.description))
+
+    members = list(FlagsSrkSet.__members__.values())
+    live = [[m.tag, m.label, m.description] for m in members]
+    gen = [m[1:] for m in ck.generated_meta.get("EnumTables", {}).get("enums", {}).get("enumFlagsSrkSet", {}).get("members", [])]
+    s.note(("table", "flagssrk"))
+    s.compare(("table", "flagssrk"), live, gen, "generated member table differs from the live enum")
+    clsname = _hx(FlagsSrkSet.__name__)
+    for t in list(range(-20, 40)) + [99, 255, 256, 300, 0x8000, -0x8000, 2 ** 40]:
+        known = [m for m in members if m.tag == t]
+        r = pyres(FlagsSrkSet.from_tag, t)
+        s.note(("soft", "from_tag", t), cls="known" if known else "unknown")
+        ok = r[0] == "ok" and r[1].tag == t and (not known or r[1] is known[0]) and (known or r[1].label not in [m.label for m in members])
+        s.expect(ok, ("soft", "from_tag", t), "SpsdkSoftEnum.from_tag fails / returns a member with another tag / invents a label that a real member has", r)
+        reqs.append((("soft", "from_tag", t), f"soft flagssrk {clsname} from_tag {t}", "ok:" + row(r[1]) if r[0] == "ok" else r[0]))
+        r2 = pyres(FlagsSrkSet.get_label, t)
+        s.expect(r2[0] == "ok" and (not known or r2[1] == known[0].label), ("soft", "get_label", t), "SpsdkSoftEnum.get_label fails / wrong label", r2)
+        reqs.append((("soft", "get_label", t), f"soft flagssrk {clsname} get_label {t}", "ok:" + _hx(r2[1]) if r2[0] == "ok" else r2[0]))
+        for d in (None, "dflt"):
+            r3 = pyres(FlagsSrkSet.get_description, t, d)
+            s.expect(r3[0] == "ok" and (not known or r3[1] == (known[0].description or d)), ("soft", "get_description", t, d), "SpsdkSoftEnum.get_description fails / wrong text", r3)
+            reqs.append((("soft", "get_description", t, d), f"soft flagssrk {clsname} get_description {t} {'none' if d is None else _hx(d)}",
+                         ("ok:" + ("none" if r3[1] is None else _hx(r3[1]))) if r3[0] == "ok" else r3[0]))
+        r4 = pyres(FlagsSrkSet.contains, t)
+        reqs.append((("soft", "contains", t), f"soft flagssrk contains_tag {t}", canon(r4)))
+    for l in ("none", "NXP", "Oem", "zz", "FlagsSrkSet:Unknown_0x63", ""):
+        r = pyres(FlagsSrkSet.from_label, l)
+        known = [m for m in members if m.label.upper() == l.upper()]
+        s.note(("soft", "from_label", l))
+        s.expect(r[0] == ("ok" if known else "E:spsdk") and (r[0] != "ok" or r[1] is known[0]), ("soft", "from_label", l), "SpsdkSoftEnum.from_label is not the strict label lookup", r)
+        reqs.append((("soft", "from_label", l), f"enum flagssrk from_label {_hx(l)}", "ok:" + row(r[1]) if r[0] == "ok" else r[0]))
+
+    # ---- size_fmt
+    for kibi in (True, False):
+        base = 1024 if kibi else 1000
+        units = ["B"] + [c + ("iB" if kibi else "B") for c in "kMGTP"]
+        nums = {-2000, -5, -1, 0, 1, 9, 10, 999, 1000, 1001, 1023, 1024, 1025, 1075, 1076, 1126, 1127, 1177, 1178, 1536, 10 ** 9, 2 ** 53 - 1}
+        for k in range(1, 8):
+            for d in (-1, 0, 1):
+                nums.add(base ** k + d)
+            nums.add(base ** k * 3 // 2)
+            nums.add(base ** k // 20 * 19)
+        nums |= {rng.randrange(base ** k) for k in range(1, 7) for _ in range(ck.budget(6, 60))}
+        for n in sorted(nums):
+            r = pyres(misc.size_fmt, n, kibi)
+            s.note(("size_fmt", n, kibi), cls="beyond-last-unit" if n >= base ** 6 - base ** 6 // 2 ** 40 else "in-range")
+            exact_model = (kibi and abs(n) < 2 ** 53)
+            if not kibi and 0 <= n:
+                k_ = 0
+                while k_ < 6 and n >= base ** (k_ + 1):
+                    k_ += 1
+                d_ = base ** k_
+                dist = abs(2 * ((10 * n) % d_) - d_)          # 0 = exact rounding tie of the one-decimal mantissa
+                exact_model = n < 10 ** 15 and (k_ == 0 or dist * 10 ** 6 > d_)
+            if exact_model:
+                reqs.append((("size_fmt", n, kibi), f"size_fmt {n} {int(kibi)}", ("ok:" + _hx(r[1])) if r[0] == "ok" else r[0]))
+            if n < base:
+                s.expect(r == ("ok", f"{n} B"), ("size_fmt", n, kibi), "size_fmt of a value below one unit is not '<n> B'", r)
+                continue
+            ok = r[0] == "ok" and r[1].count(" ") == 1 and r[1].split(" ")[1] in units[1:]
+            if ok:
+                mant, unit = r[1].split(" ")
+                k = units.index(unit)
+                shown = int(mant.replace(".", ""))                       # tenths of a unit
+                ok = "." in mant and len(mant.split(".")[1]) == 1 and abs(shown * base ** k - 10 * n) * 2 <= base ** k + (0 if kibi else base ** k // 10 ** 6)
+                ok = ok and (base ** k <= n) and (n < base ** (k + 1) or k == 5)
+            s.expect(ok, ("size_fmt", n, kibi), "size_fmt does not print the value, rounded to one decimal, in the largest unit not above it "
+                     "(from base^6 on the last unit is divided once too often: 1024**6 prints as '1.0 PiB')", r, None,
+                     finding=F_SIZE if n >= base ** 6 - base ** 6 // 2 ** 40 else None)   # (floats: values within 2^-40 of base^6 round up to it)
+    # ---- SecBootBlckSize.align_block_fill_zeros, Endianness, change_endianness widths
+    for L in range(0, 71):
+        b = bytes(rng.getrandbits(8) | 1 for _ in range(L))
+        r = pyres(sbmisc.SecBootBlckSize.align_block_fill_zeros, b)
+        s.note(("sb_fill_zeros", b))
+        reqs.append((("sb_fill_zeros", b), f"sb_fill_zeros {hexs(b)}", canon(r)))
+        ok = (r[0] == "ok" and r[1][:L] == b and len(r[1]) % 16 == 0 and L <= len(r[1]) < L + 16 and set(r[1][L:]) <= {0}
+              and pyres(sbmisc.SecBootBlckSize.to_num_blocks, len(r[1])) == ("ok", len(r[1]) // 16))
+        s.expect(ok, ("sb_fill_zeros", b), "align_block_fill_zeros does not append zeros up to the next multiple of 16 / to_num_blocks refuses the result", r)
+    vals_ = pyres(misc.Endianness.values)
+    s.note(("endianness",))
+    s.expect(vals_ == ("ok", ["big", "little"]) and all(int.from_bytes(b"\x01\x02", v) for v in vals_[1]), ("endianness",), "Endianness values are not big / little", vals_)
+    reqs.append((("endianness",), "endianness", "ok:" + ",".join(_hx(n_) + "=" + _hx(m.value) for n_, m in misc.Endianness.__members__.items())))
+    for L in range(0, 41):
+        b = bytes(range(1, L + 1))
+        r = pyres(misc.change_endianness, b)
+        s.note(("change_endianness_width", L), cls=r[0])
+        if L in (0, 1, 2) or L % 4 == 0:
+            want = b[::-1] if L <= 4 else b"".join(b[i:i + 4][::-1] for i in range(0, L, 4))
+            s.expect(r[0] == "ok" and bytes(r[1]) == want, ("change_endianness_width", L), "change_endianness is not the byte reversal (per 32-bit word beyond 4 bytes)", r, want)
+        else:
+            s.expect(r[0] == "E:spsdk", ("change_endianness_width", L), "change_endianness accepts a width that is neither 1, 2 nor a multiple of 4", r)
+    corr(s, reqs)
+
+    # ------------------------------------------------------------------ BcdVersion3.from_str / str
+    s = ck.stream("bcd_version", "BcdVersion3.from_str(c + '.0.9') for every c of length <= L over '019aFxX_+- .' (L = 3 quick, 4 thorough) + samples of "
+                  "length 4/5; random valid versions; DEFAULT; to_version; non-trivial = accepted or 3 components")
+    reqs = []
+    ALPHA = "019aFxX_+- ."
+    comps = ["".join(t) for L in range(0, ck.budget(3, 4) + 1) for t in itertools.product(ALPHA, repeat=L)]
+    comps += ["".join(rng.choice(ALPHA) for _ in range(rng.choice((4, 5)))) for _ in range(ck.budget(1500, 5000))]
+    comps += ["9999", "99999", "0x99", "0X9_9", "١", "12 ", "\t1", "-0", "+0", "1__2", "0x", "0x_", "_", "a", "A", "9A", "10000", "1e1", "\x1c1"]
+    texts = [c + ".0.9" for c in comps] + ["1.2.3", "1.2", "1.2.3.4", "", ".", "..", "...", "0.0.0", "9999.9999.9999", "1.0x2.3", "1.2.+3", "12345.0.0", "a.0.0", "1..2"]
+    texts += [f"{rng.randrange(10000)}.{rng.randrange(10000)}.{rng.randrange(1000)}" for _ in range(200)]
+    texts.append(sbmisc.BcdVersion3.DEFAULT)
+    accepted_lenient = 0
+    for text in texts:
+        r = pyres(lambda: sbmisc.BcdVersion3.from_str(text))
+        got = (r[1].major, r[1].minor, r[1].service) if r[0] == "ok" else None
+        exp = _bcd_expect(text) if all(ord(c) < 128 for c in text) else None
+        s.note(("from_str", text), nontrivial=r[0] == "ok" or text.count(".") == 2, cls=(exp[0] if exp else "non-ascii") + "/" + r[0])
+        if exp is None:
+            # non-ASCII: documented grammar is ASCII decimal digits -> must not be accepted (int() takes any Unicode digit)
+            s.expect(r[0] != "ok", ("from_str", text), "BcdVersion3.from_str accepts a component that is not 1-4 ASCII decimal digits", got, None, finding=F_BCD)
+            continue
+        reqs.append((("from_str", text), "bcd_from_str " + _hx(text), ("ok:%d.%d.%d" % got) if got else r[0]))
+        if exp[0] == "grammar":
+            ok = got == exp[1] if f"{exp[1][0]:04X}{exp[1][1]:04X}{exp[1][2]:04X}".isdigit() else r[0] == "E:spsdk"
+            s.expect(ok, ("from_str", text), "BcdVersion3.from_str does not parse a version that matches #.#.#", r, exp[1])
+            if got:
+                back = pyres(lambda: sbmisc.BcdVersion3.from_str(str(r[1])))
+                s.expect(str(r[1]) == ".".join(p.lstrip("0") or "0" for p in text.split(".")) and back[0] == "ok" and back[1] == r[1], ("from_str", text),
+                         "str(BcdVersion3) does not parse back to the same version", (str(r[1]), back))
+                reqs.append((("bcd_str", got), "bcd_str %d %d %d" % got, "ok:" + _hx(str(r[1]))))
+        elif exp[0] == "lenient":
+            accepted_lenient += r[0] == "ok"
+            # known finding: accepted although not #.#.#; anything but the int(text, 16) reading is a fresh violation
+            s.expect(got == exp[1], ("from_str", text), "BcdVersion3.from_str reads a component differently from its hexadecimal value", r, exp[1])
+            s.expect(r[0] != "ok", ("from_str", text), "BcdVersion3.from_str accepts a component that is not 1-4 decimal digits (sign, 0x prefix, "
+                     "underscore or whitespace pass through int(text, 16))", got, "SPSDKError", finding=F_BCD)
+        else:
+            s.expect(r[0] != "ok", ("from_str", text), "BcdVersion3.from_str accepts a malformed version", got)
+            s.expect(r[0] in ("ok", "E:spsdk"), ("from_str", text), "BcdVersion3.from_str rejects a malformed component with ValueError instead of an "
+                     "SPSDK error (the length guard `len(text) < 0` is dead, int() raises)", r[0], "E:spsdk",
+                     finding=F_BCD if exp[0] == "reject-valueerror" else None)
+    ck.extra["bcd_from_str_lenient_accepted"] = accepted_lenient
+    for v in ("1.2.3", sbmisc.BcdVersion3(1, 2, 3)):
+        r = pyres(sbmisc.BcdVersion3.to_version, v)
+        s.note(("to_version", str(v)))
+        s.expect(r[0] == "ok" and r[1].nums == [1, 2, 3], ("to_version", str(v)), "to_version does not convert", r)
+    for v in (5, None, b"1.2.3"):
+        r = pyres(sbmisc.BcdVersion3.to_version, v)
+        s.note(("to_version", repr(v)))
+        s.expect(r[0] == "E:spsdk", ("to_version", repr(v)), "to_version accepts an unsupported type", r)
+    for nums_ in ((10, 0, 0), (0, 0x1A, 0), (0, 0, 0x10000), (-1, 0, 0)):
+        r = pyres(sbmisc.BcdVersion3, *nums_)
+        s.note(("ctor", nums_))
+        s.expect(r[0] == "E:spsdk", ("ctor", nums_), "BcdVersion3 accepts a number that is not BCD", r)
+    corr(s, reqs)
+
+    # ------------------------------------------------------------------ load_hex_string: file branch
+    s = ck.stream("load_hex_file", "load_hex_string(name, size) with `name` an existing file, sizes 1,2,3,4,16,32: hex text exact / short / long, "
+                  "0x/0X, upper case, trailing \\n / \\r\\n, leading blanks, separators, suffix, binary of right / wrong size, binary that is "
+                  "all hex digits, empty file, lone 0x, undecodable bytes; a name that is itself a valid literal; non-trivial = distinct content")
+    scratch = os.path.join(os.environ.get("VERIF_SCRATCH", "/tmp"), "c20-files-cwd")
+    os.makedirs(scratch, exist_ok=True)
+    reqs = []
+    with _cwd(scratch):
+        for size in (1, 2, 3, 4, 16, 32):
+            key = bytes(rng.getrandbits(8) | 0x81 for _ in range(size))        # every byte >= 0x81: not ASCII, first byte not zero
+            hx = key.hex()
+            asc = bytes(rng.choice(b"0123456789abcdef") for _ in range(size))
+            cases = [("hex", hx.encode(), key), ("hex_nl", hx.encode() + b"\n", key), ("hex_crlf", hx.encode() + b"\r\n", key), ("hex_0x", b"0x" + hx.encode(), key),
+                     ("hex_0X_upper", b"0X" + hx.upper().encode() + b"\n", key), ("hex_lead", b"  \t" + hx.encode(), None),   # recorded: "0x" is prepended BEFORE the strip, so leading blanks make it "not a number"
+                     ("hex_short", hx[2:].encode() or b"0", None), ("hex_long", hx.encode() + b"11", None), ("hex_zero_long", b"00" + hx.encode(), key),
+                     ("hex_sep", (hx[:2] + "_" + hx[2:]).encode() if size > 1 else hx.encode(), key), ("hex_suffix", hx.encode() + b"ul", key),
+                     ("bin", key, key), ("bin_short", key[:-1], None), ("bin_long", key + b"\x80", None), ("bin_ascii_hex", asc, None),
+                     ("empty", b"", None), ("lone_0x", b"0x", None), ("text_bad", b"hello world, no key!"[:size] if size <= 4 else b"hello world, not a key", None),
+                     ("undecodable", b"\xff\xfe" + hx.encode(), None), ("inner_blank", (hx[:1] + " " + hx[1:]).encode(), None)]
+            for label, content, want in cases:
+                for name in (f"k_{label}.txt", "0102"):
+                    if name == "0102" and label not in ("hex", "bin", "empty", "bin_short"):
+                        continue
+                    with open(name, "wb") as fh:
+                        fh.write(content)
+                    r = pyres(misc.load_hex_string, name, size)
+                    os.remove(name)
+                    s.note(("file", label, size, name), cls=label + "/" + r[0])
+                    reqs.append((("file", label, content, size, name), f"load_hex_file {hexs(content)} {_hx(name)} {size}", canon(r)))
+                    if want is not None:
+                        s.expect(r == ("ok", want), ("file", label, content, size), "load_hex_string(file) does not return the key stored in the file", r, want)
+                    if r[0] == "ok":
+                        s.expect(len(r[1]) == size, ("file", label, content, size), "load_hex_string(file) returns a key of the wrong size", r)
+                    else:
+                        s.expect(r[0] == "E:spsdk", ("file", label, content, size), "load_hex_string(file) fails with a non-SPSDK error", r)
+                    if label in ("bin_short", "bin_long", "empty", "lone_0x", "undecodable", "hex_long", "inner_blank") and len(content) != size:
+                        s.expect(r[0] == "E:spsdk", ("file", label, content, size), "load_hex_string(file) accepts a file that holds neither a number of "
+                                 "that size nor exactly expected_size bytes", r)
     corr(s, reqs)
 
 
